@@ -501,6 +501,11 @@ class Interp:
         if len(options) == 1:
             self.summary.inputs.append((key, options[0]))
             return options[0]
+        for stem, callee in ({} if self.opts.get("opaque_branch_ok") else getattr(self, "opaque_names", {})).items():
+            if stem in key:
+                # an unknown result may be passed around, but a decision that depends on it would be explored both ways
+                # and reported as if the code could really take either: fail closed instead
+                raise Unrecognised("the path branches on the result of %s, a foreign function without a model" % callee)
         if self.pos < len(self.decisions):
             i = self.decisions[self.pos]
         else:
@@ -1330,21 +1335,32 @@ class Interp:
     def e_Loop(self, n, fr):
         label = n.get("hid")
         it = 0
+        free = 0
         while True:
             it += 1
-            if it > self.loop_bound:
+            if it > self.loop_bound or free > 16:
                 raise CutEx("loop bound %d at line %s" % (self.loop_bound, n.get("line")))
             self.emit("loop_iter", line=n.get("line"), n=it)
+            self.finite_tick = False
             try:
                 self.eval(n["body"], fr)
             except BreakEx as b:
                 if b.label == label:
+                    self.finite_tick = False
                     return b.value if b.value is not None else UnitV()
                 raise
             except ContinueEx as c:
                 if c.label == label:
+                    if self.finite_tick:
+                        it -= 1       # an iteration driven by an item of a fully known finite sequence (`for x in vec![..]`)
+                        free += 1
+                    self.finite_tick = False
                     continue
                 raise
+            if self.finite_tick:
+                it -= 1
+                free += 1
+            self.finite_tick = False
 
     def e_Match(self, n, fr):
         scrut = n["scrut"]
@@ -1393,6 +1409,15 @@ class Interp:
         m = models.lookup(self, path, fnref)
         if m is not None:
             return m(self, args, n, fnref)
+        # a trait method named through the trait (`Self::from_iter` used as a function value): resolve it to the crate's own
+        # impl for the self type when there is exactly one
+        if isinstance(fnref, dict) and fnref.get("trait") and fnref.get("self_ty") is not None and path not in self.facts.bodies:
+            adt = self.facts.adt_of(fnref["self_ty"])
+            if adt and adt.startswith(CRATE + "::"):
+                cands = [x["path"] for i in self.facts.impls if i.get("trait") == fnref["trait"] and self.facts.adt_of(i["self_ty"]) == adt
+                         for x in i["items"] if x["name"] == fnref.get("name")]
+                if len(cands) == 1 and cands[0] in self.facts.bodies:
+                    path = cands[0]
         dk = fnref.get("defkind", "") if isinstance(fnref, dict) else ""
         if dk.startswith("Ctor"):
             # a tuple-struct / tuple-variant constructor used as a function value (`.map(UnionIndex::OnlyL)`, `.map(Some)`)
@@ -1431,6 +1456,9 @@ class Interp:
             if not any(has_mut(a) for a in args):
                 self.opaque_n = getattr(self, "opaque_n", 0) + 1
                 nm = "%s#%d(%s)" % (path.rsplit("::", 1)[-1], self.opaque_n, ", ".join(repr(a)[:40] for a in args))
+                if not hasattr(self, "opaque_names"):
+                    self.opaque_names = {}
+                self.opaque_names["%s#%d(" % (path.rsplit("::", 1)[-1], self.opaque_n)] = path
                 self.emit("opaque_call", callee=path, line=n.get("line"))
                 return UnkV(n["ty"], nm)
         raise Unrecognised("no model for callee %s (line %s)" % (path, n.get("line")))
